@@ -15,7 +15,7 @@ pub struct C02;
 pub const BUDGETS: &[usize] = &[1, 2, 3, 4, 5, 6, 7, 8, 9, 10, 11, 12, 15, 20, 30];
 
 pub fn gen_cascade(t: &mut Tape, max_items: usize) -> (Program, ProgInfo) {
-    let isa = IsaGen { size_static: false }.gen(t);
+    let isa = IsaGen { size_static: false, asserts: true }.gen(t);
     let shadow = t.chance(1, 5);
     let mut isa = isa;
     if shadow {
